@@ -14,6 +14,7 @@ def build(R):
     outgoing_model.install_writers(R)
     outgoing_model.install_entries(R)
     outgoing_model.install_packets(R)
+    outgoing_model.install_generators(R)
 
 
 def configure(ctx, R):
